@@ -14,7 +14,9 @@ ASSUMPTIONS = [
     "from a table of reader-producible token concatenations or any string over 'a1_' up to length 2), rendered by an independent "
     "three-line writer, read by the real TokenFactory + parse_star_property, written by the real _write_star_constraints and read "
     "again: accepted, same keys in the same order, same values; stream I/O replaced by a recording sink / direct character feed",
-    "outside: every other part of the writer (module headers, port aliases, assigns, parameters, escaped names) and the whole-file "
+    "kernel (E2): Composer._write_assignment on an assignment cell of width 1..3 joined to any aligned slice of two nets of width "
+    "1..3 whose base indices are symbolic in 0..40: the statement written is one of the Verilog spellings of exactly the joined bits",
+    "outside: every other part of the writer (module headers, port aliases, parameters, escaped names) and the whole-file "
     "round trip; counterexamples are replayed by writing a real netlist with sdn.compose and re-reading it with sdn.parse",
 ]
 
@@ -24,5 +26,6 @@ def jobs(tier):
     tmo = 200 if tier == "quick" else 900
     star = [e2job("C04", "c04", "h_attribute_list_roundtrip", tmo, tier,
                   {"VF_K": k, "VF_L": 2 if tier == "quick" else 3}, "[structure=%d]" % k) for k in range(1, 27)]
+    star.append(e2job("C04", "c04", "h_assign_statement_names_the_connected_bits", max(tmo, 400), tier))
     return star + [dict(name="C04/verilog-writer-injective", engine="E1/symheap", module="vf.e1.compose_jobs", func="writer_injective_job", timeout=3000, args=dict(which="verilog", tier=tier))] + [dict(name="C04/_write_concatenation", engine="E1/symheap", module="vf.e1.verilog_jobs",
                  func="concatenation_job", timeout=1500, args=dict(tier=tier))]
